@@ -1,20 +1,37 @@
 /- driver handlers for stream C11 (integer roots).
-   Model column: the std configuration (`stdSrc floatF64`, float guesses from Lean's native Float); the
-   no_std configuration (`nostdSrc`) is evaluated too and any difference is appended as `!nostd=…`
-   (NB.Props.C11.root_config_independent says there is none).  Oracle column: bisection floor root. -/
+   Model column: the DIGIT-level model NB.Model.RootsD (`sqrtD`, `cbrtD`, `nthRootD`, `bigint*D`: every
+   BigUint operator of the Rust text is the digit-level operator model on the wire limbs), in the std
+   configuration (`stdSrcD P floatF64`: the float guess is computed on the value with Lean's native Float
+   and converted with `ofNat`, the scaled recursive guess runs on digits); the no_std configuration
+   (`nostdSrcD`) is evaluated too and any difference is appended as `!nostd=…`
+   (NB.Props.C11.root_config_independent_D says there is none).  The std column has no size cap; the
+   no_std column runs at digit level up to `nostdCap` = 64 digits (4096 bits; every quick-tier request
+   but a handful) and on the value-level model NB.Model.Roots above.  Oracle column: bisection floor
+   root on the value. -/
 import NB.Wire
 import NB.Model.Roots
+import NB.Model.RootsD
+import NB.Model.AsmParams
 namespace NB.Drv.C11
-open NB NB.Wire NB.Roots NB.IntVal
+open NB NB.Wire NB.Roots NB.IntVal NB.RootsD
+
+def P := NB.Gen.P
 
 def su (r : Except Panic Nat) : String := showExcept showLimbs (r.map ofNat)
 def si (r : Except Panic Int) : String := showExcept showBigInt (r.map BigInt.ofInt)
+def sud (r : Except Panic (List Nat)) : String := showExcept showLimbs r
+def sid (r : Except Panic BigInt) : String := showExcept showBigInt r
 
-def stdS : GuessSrc := stdSrc floatF64 stdDepth
+def stdSD : GuessSrcD := stdSrcD P floatF64 stdDepth
 
-def both (f : GuessSrc → String) : String :=
-  let a := f stdS
-  let b := f nostdSrc
+/-- size cap (digits of the magnitude) for evaluating the SECOND configuration (no_std, guess
+    `1 << max_bits`, many more Newton iterations) at digit level; above it the no_std column is the
+    value-level model.  The primary (std) column is always digit-level. -/
+def nostdCap : Nat := 64
+
+def both (len : Nat) (f : GuessSrcD → String) (g : GuessSrc → String) : String :=
+  let a := f stdSD
+  let b := if len ≤ nostdCap then f nostdSrcD else g nostdSrc
   if a == b then a else a ++ " !nostd=" ++ b
 
 def oRootU (x n : Nat) : Except Panic Nat :=
@@ -29,22 +46,22 @@ def handle (op : String) (args : List String) : Option (String × String) :=
   match op, args with
   | "u.sqrt", [a] => do
     let a ← parseLimbs a
-    pure (both (fun S => su (sqrtG S (val a))), su (oRootU (val a) 2))
+    pure (both a.length (fun S => sud (sqrtD P S a)) (fun S => su (sqrtG S (val a))), su (oRootU (val a) 2))
   | "u.cbrt", [a] => do
     let a ← parseLimbs a
-    pure (both (fun S => su (cbrtG S (val a))), su (oRootU (val a) 3))
+    pure (both a.length (fun S => sud (cbrtD P S a)) (fun S => su (cbrtG S (val a))), su (oRootU (val a) 3))
   | "u.nth_root", [a, n] => do
     let a ← parseLimbs a; let n ← parseNat n
-    pure (both (fun S => su (nthRootG S (val a) n)), su (oRootU (val a) n))
+    pure (both a.length (fun S => sud (nthRootD P S a n)) (fun S => su (nthRootG S (val a) n)), su (oRootU (val a) n))
   | "i.sqrt", [a] => do
     let a ← parseBigInt a
-    pure (both (fun S => si (bigintSqrt S a.val)), si (oRootI a.val 2))
+    pure (both a.mag.length (fun S => sid (bigintSqrtD P S a)) (fun S => si (bigintSqrt S a.val)), si (oRootI a.val 2))
   | "i.cbrt", [a] => do
     let a ← parseBigInt a
-    pure (both (fun S => si (bigintCbrt S a.val)), si (oRootI a.val 3))
+    pure (both a.mag.length (fun S => sid (bigintCbrtD P S a)) (fun S => si (bigintCbrt S a.val)), si (oRootI a.val 3))
   | "i.nth_root", [a, n] => do
     let a ← parseBigInt a; let n ← parseNat n
-    pure (both (fun S => si (bigintNthRoot S a.val n)), si (oRootI a.val n))
+    pure (both a.mag.length (fun S => sid (bigintNthRootD P S a n)) (fun S => si (bigintNthRoot S a.val n)), si (oRootI a.val n))
   | _, _ => none
 
 end NB.Drv.C11
